@@ -89,6 +89,23 @@ CHECKS = {
         note='trusted: edit classification per RFC 4253/4419/5656/8731, '
              'refssh KEXINIT parser/negotiator',
         design='3/C03'),
+    'C05': dict(
+        level='exploration',
+        technique='runtime monitoring: scripted hostile client histories '
+                  'against a server with recording (sync / gated-async) '
+                  'validators, reference authentication model over the '
+                  'recorded decisions, behavioural restriction probes, '
+                  'positive logins incl. ssh-agent and OpenSSH client',
+        text='For generated USERAUTH histories (methods, users, signature '
+             'defects, pipelining, validator completion orders) the user a '
+             'connection ends up authenticated as must have an accepted '
+             'credential event of its own; clean valid credentials are '
+             'admitted; nothing of the connection protocol is accepted '
+             'before success; restrictions enforced afterwards equal those '
+             'of the accepted credential.',
+        note='trusted: the reference model treats application validators as '
+             'the authority; reference peer signs deliberately wrong data',
+        design='3/C05'),
     'C06': dict(
         level='fault_enumeration',
         technique='runtime monitoring under fault injection: reference peer '
